@@ -181,3 +181,94 @@ Section Digest.
     | Creds u fs' => Some (check_password u method fs' pw)
     end.
 End Digest.
+
+(** ---- decode() from the raw header bytes: splitlines / join, the _parseparts regular expression
+    KEY=(?:QUOTED|BARE),? with KEY = one or more bytes other than = and space, QUOTED = a double-quoted
+    run without double quotes, BARE = one or more bytes other than comma, as used by findall, and .strip() of keys and values ---- *)
+Fixpoint span (p : N -> bool) (s : bytes) : bytes * bytes :=
+  match s with
+  | [] => ([], [])
+  | c :: r => if p c then let '(a, b) := span p r in (c :: a, b) else ([], s)
+  end.
+
+(** bytes.splitlines(): lines end at \n, \r\n or \r; no empty last line after a final line end *)
+Fixpoint splitlines_go (fuel : nat) (s : bytes) : list bytes :=
+  match fuel with
+  | O => []
+  | S f =>
+      match s with
+      | [] => []
+      | _ =>
+          let '(line, r) := span (fun c => negb (N.eqb c 10 || N.eqb c 13)) s in
+          line :: match r with
+                  | 13%N :: 10%N :: r' => splitlines_go f r'
+                  | _ :: r' => splitlines_go f r'
+                  | [] => []
+                  end
+      end
+  end.
+Definition splitlines (s : bytes) : list bytes := splitlines_go (S (length s)) s.
+
+Definition key_char (c : N) : bool := negb (N.eqb c 61) && negb (N.eqb c 32).     (* [^= ] *)
+Definition drop_comma (s : bytes) : bytes := match s with 44%N :: r => r | _ => s end.   (* ,? *)
+
+(** one match of the expression at the start of s: (key, value, what follows the match) *)
+Definition match_at (s : bytes) : option (bytes * bytes * bytes) :=
+  let '(k, r1) := span key_char s in
+  match k, r1 with
+  | _ :: _, 61%N :: r2 =>
+      let bare := let '(v, r3) := span (fun c => negb (N.eqb c 44)) r2 in
+                  match v with [] => None | _ => Some (k, v, drop_comma r3) end in
+      match r2 with
+      | 34%N :: r3 =>
+          let '(q, r4) := span (fun c => negb (N.eqb c 34)) r3 in
+          match r4 with
+          | 34%N :: r5 => Some (k, q, drop_comma r5)
+          | _ => bare
+          end
+      | _ => bare
+      end
+  | _, _ => None
+  end.
+
+(** re.findall: leftmost matches, scanning on after each match, one position further where none starts *)
+Fixpoint findall (fuel : nat) (s : bytes) : list (bytes * bytes) :=
+  match fuel with
+  | O => []
+  | S f =>
+      match s with
+      | [] => []
+      | _ :: r => match match_at s with
+                  | Some (k, v, rest) => (k, v) :: findall f rest
+                  | None => findall f r
+                  end
+      end
+  end.
+
+Definition is_space (c : N) : bool := N.eqb c 32 || (N.leb 9 c && N.leb c 13).     (* space, \t \n \x0b \x0c \r *)
+Fixpoint lstrip (s : bytes) : bytes := match s with c :: r => if is_space c then lstrip r else s | [] => [] end.
+Definition strip (s : bytes) : bytes := rev (lstrip (rev (lstrip s))).
+
+Definition parse_fields (raw : bytes) : fields :=
+  let s := join 32 (splitlines raw) in
+  map (fun kv => (strip (fst kv), strip (snd kv))) (findall (S (length s)) s).
+
+Definition non_ascii (s : bytes) : bool := existsb (fun c => N.leb 128 c) s.
+
+Section DigestRaw.
+  Variable HX : algo -> bytes -> bytes.
+  Variable b64dec : bytes -> option bytes.
+  Variable priv : bytes.
+  Variable realm : bytes.
+
+  (** decode(response, method, host) on the raw bytes (repaired: a field name that is not ASCII is a LoginFailed) *)
+  Definition decode_raw (now : N) (raw host : bytes) : decoded :=
+    let fs := parse_fields raw in
+    if existsb (fun kv => non_ascii (fst kv)) fs then LoginFailed else decode HX b64dec priv now fs host.
+
+  Definition login_raw (now : N) (raw method host pw : bytes) : option bool :=
+    match decode_raw now raw host with
+    | LoginFailed => None
+    | Creds u fs' => Some (check_password HX realm u method fs' pw)
+    end.
+End DigestRaw.
